@@ -41,6 +41,11 @@ def builtin(eng, fn, args, kwargs):
             return range(*args)
         if len(args) == 1 and is_z3(args[0]):
             return _sym_range(eng, args[0])
+        if len(args) == 2 and isinstance(args[0], int) and not isinstance(args[0], bool) and is_z3(args[1]):
+            # range(lo, hi) with a concrete start: the count hi - lo is decided as for range(n)
+            r = _sym_range(eng, simp(args[1] - args[0]))
+            items = r.items if isinstance(r, _LazyIter) else list(r)
+            return _LazyIter([x if isinstance(x, _Trunc) else x + args[0] for x in items])
         raise Unsupported("range over symbolic bound (needs loop contract)")
     if fn is enumerate:
         items = eng.iterate(args[0])
